@@ -615,7 +615,7 @@ func c37Run(t *testing.T, limit, maxlen, maxq int, kind string, r *rand.Rand, fi
 			select {
 			case <-done:
 				t.Errorf("unsubscribe did not wait for the subscribe in flight")
-			case <-time.After(3 * time.Millisecond):
+			case <-time.After(120 * time.Millisecond):
 			}
 			cb(l.OK)
 			select {
